@@ -343,7 +343,11 @@ KF = "C02-pandas-string-index-buffer"
 KF_TEXT = ("mutating the Index of a pandas object returned by the matrix - renaming it, or writing through its label "
            "buffer (dm.alternatives[a].index.to_numpy()[0] = 'x'; under pandas 3 a string Index hands out its internal "
            "buffer writeable) - changes the matrix's own criteria / alternatives: the returned objects share the "
-           "matrix's Index objects")
+           "matrix's Index objects (a later lookup may then raise, or crash the interpreter on a freed label)")
+
+
+def _crashed(item, status):
+    return {"crashed": status}
 
 
 def run_history(case):
@@ -469,7 +473,7 @@ def run(ctx):
         c["hseed"] = ctx.rng.randrange(10 ** 6)
         c["kind"] = "history"
         cases.append(c)
-    outs = I.pmap(run_history, cases)
+    outs = I.pmap(run_history, cases, on_crash=_crashed)
     # (b) constructor inputs
     ccases = []
     for _ in range(ctx.n(60, 600)):
@@ -480,17 +484,29 @@ def run(ctx):
         c["frozen"] = ctx.rng.random() < 0.3
         c["kind"] = "ctor"
         ccases.append(c)
-    couts = I.pmap(run_ctor, ccases)
+    couts = I.pmap(run_ctor, ccases, on_crash=_crashed)
     for c, o in list(zip(cases, outs)) + list(zip(ccases, couts)):
         ctx.count("kind:" + c["kind"])
+        if "crashed" in o:
+            # the interpreter itself died during this history.  Writing through the label buffer of a returned
+            # pandas Index (the known finding) reaches the matrix's own Index, whose hash table then points at
+            # freed strings: the same history without those writes decides whether that is what happened
+            ctx.case_seen(c, False)
+            if "ops" in c and not c.get("no_index_buffer_writes"):
+                how, o2 = I.isolated_call(run_history, dict(c, no_index_buffer_writes=True))
+                if how == "ok" and "error" not in o2 and not o2["diffs"] and ctx.known_finding(KF, KF_TEXT):
+                    ctx.count("known:index_buffer_write_then_interpreter_crash")
+                    continue
+            ctx.oracle_fail(c, {"oracle": f"the interpreter died ({o['crashed']}) during this history"})
+            continue
         if "error" in o:
             ctx.case_seen(c, False)
             if "ops" in c and not c.get("no_index_buffer_writes"):
                 # a write through a returned pandas Index (the known finding) can leave the matrix with
                 # duplicate labels, after which a later accessor raises: the same history without those writes
                 # decides whether that is what happened
-                o2 = run_history(dict(c, no_index_buffer_writes=True))
-                if "error" not in o2 and not o2["diffs"] and ctx.known_finding(KF, KF_TEXT):
+                how, o2 = I.isolated_call(run_history, dict(c, no_index_buffer_writes=True))
+                if how == "ok" and "error" not in o2 and not o2["diffs"] and ctx.known_finding(KF, KF_TEXT):
                     ctx.count("known:index_buffer_write_then_raise")
                     continue
             ctx.disagree(c, {"what": "history raised", "exc": o["error"]})
@@ -505,8 +521,8 @@ def run(ctx):
                    for _n, route, ok in o["log"]):
                 c2 = dict(c)
                 c2["no_index_buffer_writes"] = True
-                o2 = run_history(c2)
-                only_kf = "error" not in o2 and not o2["diffs"]
+                how, o2 = I.isolated_call(run_history, c2)
+                only_kf = how == "ok" and "error" not in o2 and not o2["diffs"]
             if only_kf and ctx.known_finding(KF, KF_TEXT):
                 ctx.count("known:index_buffer_write")
                 continue
@@ -521,11 +537,14 @@ def run(ctx):
 def replay(ctx, rep):
     case = rep["case"]
     if "ops" in case:
-        o = run_history(case)
+        how, o = I.isolated_call(run_history, case)
     elif "label_kind" in case:
-        o = run_ctor(case)
+        how, o = I.isolated_call(run_ctor, case)
     else:
         print("enumeration case; re-run the check")
         return 0
+    if how == "crashed":
+        print("the interpreter died while running this history:", o)
+        return 1
     print(o)
     return 1 if o.get("diffs") or "error" in o else 0
